@@ -266,7 +266,9 @@ def run_boundary(spec, out):
     scratch = spec["scratch"]
     nbox = [0]
 
-    def case(route, op, key):
+    def case(route, op, key, warm=None):
+        if warm is None:
+            warm = rnd.random() < 0.5
         nbox[0] += 1
         box = make_box(scratch, nbox[0] % 4)
         root = os.path.join(box, "root")
@@ -292,6 +294,17 @@ def run_boundary(spec, out):
             st = MountPointStore().with_indexer()
             st.mount("data", fs)
             k = "data/" + key
+        if warm:
+            # the store has been used for ordinary keys before (whatever it remembers about them must not open a way out)
+            pre = k[: len(k) - len(key)]
+            for f in (lambda: st.store(pre + "warm/new.txt", b"warm", {"x": 1}), lambda: st.contains(pre + "warm/new.txt"),
+                      lambda: st.get_bytes(pre + "warm/new.txt"), lambda: st.listdir(pre + "warm"), lambda: st.store(pre + "top.txt", b"t", {}),
+                      lambda: st.is_dir(pre + "warm"), lambda: st.get_metadata(pre + "top.txt")):
+                try:
+                    f()
+                except Exception:
+                    pass
+            out["counters"]["warmed_up_cases"] = out["counters"].get("warmed_up_cases", 0) + 1
         before = digest_tree(box, skip=root)
         res, exc = None, None
         with watching(root, scratch):
@@ -314,7 +327,7 @@ def run_boundary(spec, out):
         out["counters"]["op." + op] = out["counters"].get("op." + op, 0) + 1
         if any(c in ("..", "", "__metadata__") for c in key.split("/")) or key.startswith("/"):
             out["nontrivial"].add("%s|%s|%s" % (route, op, key))
-        w = {"kind": "boundary", "route": route, "op": op, "key": key}
+        w = {"kind": "boundary", "route": route, "op": op, "key": key, "warm": bool(warm)}
         after = digest_tree(box, skip=root)
 
         def viol(kind, detail):
@@ -336,7 +349,7 @@ def run_boundary(spec, out):
 
     if "replay" in spec:
         w = spec["replay"]
-        case(w["route"], w["op"], w["key"])
+        case(w["route"], w["op"], w["key"], warm=w.get("warm", False))
         return
     box0 = os.path.join(scratch, "p1", "p2", "p3", "p4", "box0")
     for key in boundary_keys(spec["depth"], spec["part"], spec["parts"], spec["sample"], rnd, box0):
